@@ -100,35 +100,28 @@ Qed.
 (* one message: replaying its rows reproduces its effect               *)
 (* ------------------------------------------------------------------ *)
 
-(* the serial-arithmetic class (C12-serial-arith / C14-serial-wrap-replay), as a decidable
-   predicate of the zone and the message: the increment is applied at (or beyond) 2^32-1 *)
-Definition wraps (o : name) (z : zone) (m : msg) : bool :=
-  let '(z1, upd, _) := apply_rrs o z false (m_upd m) in upd && negb (serial o z1 + 1 <? two32).
-
+(* every message of a history outside C12-soa-not-apex: replaying its rows gives its effect.  No
+   guard on the serial any more (fix 118f816): the journalled SOA row carries the successor
+   serial, which replay accepts because it is RFC 1982-newer, also across the wrap *)
 Lemma update_j_replay ovf o z m :
-  WF o z -> Known_inv o m = false -> wraps o z m = false ->
+  WF o z -> Known_inv o m = false ->
   exists z' c rows, update_j ovf o z m = (z', Rc c, rows) /\ replay o z rows = Some z' /\ WF o z'.
 Proof.
-  intros W Hk Hw. pose proof (Known_inv_false _ _ Hk) as Hok. unfold update_j.
+  intros W Hk. pose proof (Known_inv_false _ _ Hk) as Hok. unfold update_j.
   destruct (negb (m_auth m)); [exists z, Refused, []; auto|].
   destruct (negb (verify_prerequisites o z (m_pre m) =? NoError)); [eexists z, _, []; auto|].
   destruct (negb (pre_scan o (m_upd m) =? NoError)) eqn:Ep; [eexists z, _, []; auto|].
   apply negb_false_iff, N.eqb_eq in Ep.
   destruct (update_records_spec ovf o z (m_upd m) W Hok Ep) as (z1 & upd & Ha & W1 & _).
   pose proof (replay_apply_rrs o _ _ _ _ _ (pre_scan_no_axfr o _ Ep) Ha) as Hr.
-  unfold wraps in Hw. rewrite Ha in Hw.
   unfold update_records_j. rewrite Ha. cbn [negb]. destruct upd; cbn [negb andb] in *.
-  - destruct (increment_spec ovf o z1 W1) as (s & r & ttl & Hg & ->).
-    rewrite (serial_wf _ _ _ _ _ Hg) in Hw. apply negb_false_iff, N.ltb_lt in Hw.
-    assert (next_serial ovf s = Some (s + 1)) as ->.
-    { unfold next_serial. assert ((s =? two32 - 1) = false) as -> by (apply N.eqb_neq; unfold two32 in *; lia).
-      cbn [andb]. rewrite N.mod_small by exact Hw. reflexivity. }
-    rewrite zget_zset_same.
-    exists (zset z1 (o, tSOA) [(DSoa (s + 1) r, ttl)]), NoError, (m_upd m ++ [mkRR o cIN ttl tSOA (DSoa (s + 1) r)]).
+  - destruct (increment_spec ovf o z1 W1) as (s & r & ttl & Hg & ->). unfold next_serial.
+    rewrite zget_zset_same. set (s' := (s + 1) mod two32).
+    exists (zset z1 (o, tSOA) [(DSoa s' r, ttl)]), NoError, (m_upd m ++ [mkRR o cIN ttl tSOA (DSoa s' r)]).
     split; [reflexivity|]. split.
-    + rewrite replay_app, Hr. cbn [replay]. rewrite (replay_soa_row o z1 s r ttl (s + 1) W1 Hg); [reflexivity|].
-      unfold soa_newer. apply negb_true_iff, N.leb_gt. lia.
-    + apply (WF_new_soa o z1 _ (s + 1) r ttl W1); [|apply zget_zset_same].
+    + rewrite replay_app, Hr. cbn [replay]. rewrite (replay_soa_row o z1 s r ttl s' W1 Hg); [reflexivity|].
+      apply soa_newer_succ.
+    + apply (WF_new_soa o z1 _ s' r ttl W1); [|apply zget_zset_same].
       intros k Hk'. apply zget_zset_other. congruence.
   - exists z1, NoError, (m_upd m). auto.
 Qed.
@@ -137,12 +130,8 @@ Qed.
 (* histories                                                           *)
 (* ------------------------------------------------------------------ *)
 
-(* every message of the history is outside the two classes, evaluated along the run *)
-Fixpoint good_run (ovf : bool) (o : name) (z : zone) (ms : list msg) : bool :=
-  match ms with
-  | [] => true
-  | m :: ms' => negb (Known_inv o m) && negb (wraps o z m) && good_run ovf o (fst (update ovf o z m)) ms'
-  end.
+(* every message of the history is outside C12-soa-not-apex *)
+Definition good_run (o : name) (ms : list msg) : bool := forallb (fun m => negb (Known_inv o m)) ms.
 
 Lemma rows_of_cons x h : rows_of (x :: h) = snd x ++ rows_of h.
 Proof. reflexivity. Qed.
@@ -151,15 +140,14 @@ Lemma final_cons ovf o z m ms : final ovf o z (m :: ms) = final ovf o (fst (upda
 Proof. reflexivity. Qed.
 
 Lemma run_j_replay ovf o ms : forall z,
-  WF o z -> good_run ovf o z ms = true ->
+  WF o z -> good_run o ms = true ->
   replay o z (rows_of (run_j ovf o z ms)) = Some (final ovf o z ms) /\ WF o (final ovf o z ms)
   /\ Forall (fun x => snd (fst x) <> Panicked) (run_j ovf o z ms).
 Proof.
-  induction ms as [|m ms IH]; intros z W Hg; cbn [run_j good_run] in *.
+  induction ms as [|m ms IH]; intros z W Hg; cbn [run_j good_run forallb] in *.
   - split; [reflexivity|split; [exact W|constructor]].
-  - apply andb_true_iff in Hg. destruct Hg as [Hg Hg2]. apply andb_true_iff in Hg. destruct Hg as [Hk Hw].
-    apply negb_true_iff in Hk, Hw.
-    destruct (update_j_replay ovf o z m W Hk Hw) as (z' & c & rows & Hu & Hr & W').
+  - apply andb_true_iff in Hg. destruct Hg as [Hk Hg2]. apply negb_true_iff in Hk.
+    destruct (update_j_replay ovf o z m W Hk) as (z' & c & rows & Hu & Hr & W').
     pose proof (update_j_fst ovf o z m) as Hf. rewrite Hu in Hf. cbn [fst] in Hf.
     rewrite Hu. rewrite (final_cons ovf o z m ms). rewrite <- Hf in *. cbn [fst] in *.
     destruct (IH z' W' Hg2) as (Hr' & Wf & Hp).
